@@ -41,7 +41,7 @@ def main(argv):
             continue
         cmd = "./check %s %s" % (prop, tier)
         t0 = time.time()
-        env = dict(os.environ, MUT_TAG="seed")
+        env = dict(os.environ, MUT_TAG=os.environ.get("SEED_TAG", "seed"))
         p = subprocess.run([os.path.join(VERIF, "tools/with_patch_tag.sh"), patch, cmd], cwd=VERIF, env=env,
                            stdout=subprocess.PIPE, stderr=subprocess.STDOUT, text=True, errors="replace")
         lines = p.stdout.split("\n")
